@@ -44,12 +44,12 @@ type KnownFinding struct {
 
 // RunCtx is handed to Property.Run.
 type RunCtx struct {
-	Prop   string
-	Tier   string
-	Seed   uint64 // VERIF_SEED
-	Run    int
+	Prop    string
+	Tier    string
+	Seed    uint64 // VERIF_SEED
+	Run     int
 	RunSeed uint64
-	Ch     *Chooser
+	Ch      *Chooser
 
 	Record  bool
 	Events  []string
@@ -61,9 +61,9 @@ type RunCtx struct {
 	Steps      int64
 	Nontrivial bool
 
-	known   []*KnownFinding
-	Known   map[string]int64 // known-finding key -> hits in this run
-	cache   *Cache
+	known     []*KnownFinding
+	Known     map[string]int64 // known-finding key -> hits in this run
+	cache     *Cache
 	verifSeed uint64
 }
 
